@@ -146,7 +146,8 @@ def _native_(i):
             for grp in i["groups"]:
                 st.make("0", "der", chunk_number={"src": list(grp)}, progress_bar=False, processor=i["processor"])
             res["stored_before_merge"] = bool(st.is_stored("0", "der"))
-            st.merge_per_chunk_storage("0", "der", "src", chunk_number_group=[list(g) for g in i["groups"]], rechunk=i["rechunk"])
+            # the per-chunk jobs may have run in any order; the merge is given the groups in chunk order
+            st.merge_per_chunk_storage("0", "der", "src", chunk_number_group=sorted(list(g) for g in i["groups"]), rechunk=i["rechunk"])
             res["loaded"] = _rows(_ctx([a]).get_array("0", "der", progress_bar=False))
             res["original"] = direct
             dst = [d for d in glob.glob(os.path.join(a, "0-der-*")) if os.path.isdir(d)]
